@@ -9,6 +9,7 @@ import (
 	"time"
 
 	"github.com/jrhy/mast"
+	masts3 "github.com/jrhy/mast/persist/s3"
 	"verifharness/env"
 	"verifharness/explore"
 	"verifharness/ref"
@@ -321,6 +322,51 @@ func c03TwoStores(cfg *world.Config, hist []world.Op, acc *pairAcc, st *c03Stats
 	}
 }
 
+// c03TwoS3Stores: the same question with two S3 stores on one endpoint and bucket whose object-key prefixes
+// differ (two tenants of one bucket), sharing one NodeCache, over an in-process S3 client.
+func c03TwoS3Stores(cfg *world.Config, hist []world.Op, acc *pairAcc, st *c03Stats) {
+	w, err := explore.Replay(cfg, hist, true)
+	if err != nil || w.Cache == nil {
+		return
+	}
+	c := w.ReadContents(w.Trees[0])
+	fs := newFakeS3()
+	cache := mast.NewNodeCache(1000)
+	for i, prefix := range []string{"tenantA/", "tenantB/", ""} {
+		ps := masts3.NewPersist(fs, "http://endpoint", "bucket", prefix)
+		rc := w.RemoteConfig(w.Store, false)
+		rc.StoreImmutablePartsWith = &ps
+		rc.NodeCache = cache
+		t, err := mast.NewRoot(cfg.CreateOptions()).LoadMast(ctx, rc)
+		if err != nil {
+			return
+		}
+		for _, k := range sortedKeys(c.M) {
+			if c.M[k] >= 0 {
+				t.Insert(ctx, cfg.FreshKey(k), cfg.FreshVal(c.M[k]))
+			}
+		}
+		var root *mast.Root
+		r := guardRes(func() (err error) { root, err = t.MakeRoot(ctx); return })
+		atomic.AddInt64(&st.evals, 1)
+		if r.Err != nil || r.Panic != nil {
+			acc.add(cfg, "C03", []explore.Finding{{Sig: "C03|two-s3-stores|MakeRoot-failed|" + resClass(r), What: "MakeRoot into an S3 store sharing the cache with another one failed", Detail: r.String()}}, cfg.DescribeHist(hist))
+			return
+		}
+		get := func(n string) ([]byte, bool) {
+			fs.mu.Lock()
+			defer fs.mu.Unlock()
+			b, ok := fs.objects["bucket\x00"+prefix+n]
+			return b, ok
+		}
+		if _, err := codecFor(cfg).Walk(cfg.KS, get, linkOf(root), nil); err != nil {
+			acc.add(cfg, "C03", []explore.Finding{{Sig: "C03|two-s3-stores|node-skipped-because-cached-for-another-store", What: "with S3 stores on one bucket under different key prefixes sharing one NodeCache, a node was not written under the prefix of the store its tree persists to", Detail: fmt.Sprintf("store #%d (prefix %q): %v", i+1, prefix, err)}},
+				append(cfg.DescribeHist(hist), "the same contents built over S3 stores tenantA/, tenantB/ and \"\" of one bucket sharing one NodeCache; MakeRoot on each"))
+			return
+		}
+	}
+}
+
 // c03TwoBuiltinStores: the same question with the library's own in-memory stores (two instances,
 // one shared NodeCache): every node of a root must be loadable from the store it was persisted to.
 func c03TwoBuiltinStores(cfg *world.Config, hist []world.Op, acc *pairAcc, st *c03Stats) {
@@ -412,6 +458,7 @@ func c03Sequential(run *report.Run, acc *pairAcc, st *c03Stats) {
 			c03State(cfg, hists[i], acc, st, ms)
 			c03TwoStores(cfg, hists[i], acc, st)
 			c03TwoBuiltinStores(cfg, hists[i], acc, st)
+			c03TwoS3Stores(cfg, hists[i], acc, st)
 		})
 		run.Parts = append(run.Parts, map[string]interface{}{"part": "A: fault sequences, in-order completion", "config": cfg.Name, "pre_states": len(hists)})
 	}
